@@ -1,5 +1,8 @@
 """Tier-P contracts for C14 (small helpers of RegionObjectsState; the scene-graph invariant itself is bounded-tier only)."""
-from pyvc.contracts import ClassDecl, FnContract
+import z3
+
+from pyvc.contracts import ClassDecl, FnContract, SpecFn
+from pyvc.values import opaque_sort
 
 OREL = "hippolyzer/lib/client/object_manager.py"
 
@@ -11,12 +14,38 @@ def register_p(reg, prop):
         qualname="RegionObjectsState.cancel_futures", cls="RegionObjectsState", prop=prop,
         params={"local_id": "Int"}, param_names=["local_id"],
         externals={"self._object_futures.items": {"returns": "Opaque:Items", "doc": "dict items view"},
-                   "*.cancel": {"record_as": "cancel", "doc": "Future.cancel"}},
+                   "*.cancel": {"record_as": "cancel", "uses_recv": True, "doc": "Future.cancel"}},
         may_raise={"ValueError": ""},
         loops={0: {"inv": ["True"],
-                   # every future of an entry whose key carries this local ID is cancelled in the iteration that visits the entry
-                   "iter_post": ["True"]},
-               1: {"inv": ["True"]}},
+                   # an entry filed under another local ID is left alone (its futures are not even visited); for an entry of this
+                   # local ID the inner loop runs to the end of its list, cancelling one future per step
+                   "iter_post": ["iff(fut_key[0] == local_id, defined('_n'))",
+                                 "implies(defined('_n'), _n == len(futs) and L1_left_early == 0)"]},
+               # every future of an entry whose key carries this local ID is cancelled, each exactly once
+               1: {"ghost_init": {"_n": "0"}, "ghost_step": {"_n": "_n + ncalls('cancel')"},
+                   "inv": ["_n == _i"], "iter_post": ["ncalls('cancel') == 1", "called_with('cancel', lambda recv: recv == fut)"]}},
         # every entry of the table is examined: several keys (one per request type) can carry the same local ID, so leaving the
         # scan at the first match would strand the others pending forever
+        ensures=["L0_left_early == 0"], frame=[]))
+
+    # a future that is already done (cancelled earlier while the same message was being handled: its done-callback, which
+    # removes it from the list, only runs on the next loop turn) must not be resolved - set_result() on it raises
+    # InvalidStateError out of the update handler. fut_done is the state of a future as Future.done() reports it.
+    FD = z3.Function("fut_done", opaque_sort("Any"), z3.BoolSort())
+    reg.add_spec(SpecFn("fut_done", FD, ["opaque"], "bool"))
+    reg.add_class(ClassDecl("TrackedObject", fields={"LocalID": "Int"}))
+    reg.exc_parents.setdefault("InvalidStateError", "Exception")
+    reg.add_fn(FnContract(
+        key="hippolyzer.lib.client.object_manager:RegionObjectsState.resolve_futures", relpath=OREL,
+        qualname="RegionObjectsState.resolve_futures", cls="RegionObjectsState", prop=prop,
+        params={"obj": "Obj:TrackedObject", "update_type": "Opaque:Any"}, param_names=["obj", "update_type"],
+        externals={"self._object_futures.get": {"returns": "Opaque:FutList", "doc": "futures registered for (local id, update type), or an empty list"},
+                   "*.done": {"returns": "Bool", "uses_recv": True, "post": "result == fut_done(recv)", "doc": "Future.done()"},
+                   "*.set_result": {"uses_recv": True, "record_as": "set_result", "may_raise": "InvalidStateError",
+                                    "raise_only_if": "fut_done(recv)", "doc": "Future.set_result raises InvalidStateError exactly on a done future"}},
+        loops={0: {"inv": ["True"],
+                   # per future of the snapshot: resolved with this object iff it was still pending
+                   "iter_post": ["iff(ncalls('set_result') == 1, not fut_done(fut))", "ncalls('set_result') <= 1",
+                                 "implies(ncalls('set_result') == 1, called_with('set_result', lambda recv, arg0: recv == fut and arg0 == obj))"]}},
+        # no exception is admitted: InvalidStateError escaping here aborts the handling of the rest of the message
         ensures=["L0_left_early == 0"], frame=[]))
